@@ -118,9 +118,9 @@ func (t Tukey) TransformComplex(seq []complex128) []complex128 {
 		width := int(0.5*alphaL) + 1
 		for i, v := range seq[:width] {
 			w := 0.5 * (1 - math.Cos(2*math.Pi*float64(i)/alphaL))
-			v = complex(w*real(v), w*imag(v))
-			seq[i] = v
-			seq[len(seq)-1-i] = v
+			seq[i] = complex(w*real(v), w*imag(v))
+			v = seq[len(seq)-1-i]
+			seq[len(seq)-1-i] = complex(w*real(v), w*imag(v))
 		}
 		return seq
 	}
